@@ -351,27 +351,25 @@ func joinNonEmpty(ts []string) string {
 	return strings.Join(ne, "\n\n")
 }
 
-// the terminal operations that return no per-page text the oracles could read back
-var otherTerminals = []struct {
-	name string
-	run  func(*tabula.Extractor) error
-}{
-	{"Lines", func(x *tabula.Extractor) error { _, err := x.Lines(); return err }},
-	{"Paragraphs", func(x *tabula.Extractor) error { _, err := x.Paragraphs(); return err }},
-	{"ReadingOrder", func(x *tabula.Extractor) error { _, err := x.ReadingOrder(); return err }},
-	{"Analyze", func(x *tabula.Extractor) error { _, err := x.Analyze(); return err }},
-	{"Elements", func(x *tabula.Extractor) error { _, err := x.Elements(); return err }},
-	{"Headings", func(x *tabula.Extractor) error { _, err := x.Headings(); return err }},
-	{"Lists", func(x *tabula.Extractor) error { _, err := x.Lists(); return err }},
-	{"Blocks", func(x *tabula.Extractor) error { _, err := x.Blocks(); return err }},
-	{"ToMarkdown", func(x *tabula.Extractor) error { _, _, err := x.ToMarkdown(); return err }},
-	{"ChunksWithConfig", func(x *tabula.Extractor) error {
-		_, _, err := x.ChunksWithConfig(rag.DefaultChunkerConfig(), rag.DefaultSizeConfig())
-		return err
-	}},
-}
-
 // ---- selection cases ------------------------------------------------------------------------
+
+// pipeClass names what a c10.pipe case exercises.
+func pipeClass(d docParams, fl []call) string {
+	var xs []string
+	if d.HF {
+		xs = append(xs, "running-header-footer")
+	}
+	if d.mixed() {
+		xs = append(xs, "layout-"+d.layoutClass())
+	}
+	if d.hasBlank() {
+		xs = append(xs, "blank-pages")
+	}
+	if len(xs) == 0 {
+		xs = append(xs, "plain")
+	}
+	return strings.Join(xs, "+") + ":flags=" + strings.ReplaceAll(callsTokens(fl), " ", "")
+}
 
 func allPages(n int) []int {
 	out := make([]int, n)
@@ -406,6 +404,12 @@ func (e *env) selCase(d docParams, cs []call) {
 	}
 	mk := func() *tabula.Extractor { return chainExt(tabula.Open(path), cs) }
 	selectsAll := sp.mayErr && n > 0 && !eqInts(sp.pages, allPages(n))
+	{
+		// what the chain of calls configured: accumulated page list and the error flag
+		o, _ := stateStr(mk())
+		f := strings.Split(o, ";")
+		c.Op("c10.sel"+chainStr, f[0]+";"+f[2])
+	}
 
 	// classify an answer: "" = fine, otherwise the oracle key that fails
 	judge := func(o outcome, okKey string, matches func() bool, isAll func() bool, emptyMayErr bool) {
@@ -461,6 +465,13 @@ func (e *env) selCase(d docParams, cs []call) {
 			texts = hx.HexList(refs)
 		}
 		c.Op("c10.text "+texts+chainStr, impl)
+		// the same call against the model of the per-page pipeline (filter, OCR, assembler by options)
+		if pipeOK(d) {
+			if tbl := e.pipeTable(d); tbl != "" {
+				c.Op(fmt.Sprintf("c10.pipe %d %s%s", n, tbl, chainStr), impl)
+				c.Count("pipe:" + pipeClass(d, fl))
+			}
+		}
 	}
 
 	// Fragments
@@ -604,15 +615,16 @@ func (e *env) selCase(d docParams, cs []call) {
 			return true
 		}, true)
 
-	// every other terminal operation: same error rule, nothing left open
+	// every other terminal operation: same error rule, nothing left open, and - where the
+	// result carries the body lines of the pages - exactly the selected pages in ascending order
 	if e.extra%3 == 0 || len(cs) <= 1 {
-		for _, t := range otherTerminals {
+		for _, k := range []string{"l", "a", "o", "z", "e", "s", "i", "b", "w", "q"} {
+			info := lifeOps[k]
 			x := mk()
 			before := fdCount()
-			var err error
-			p := hx.Safe(func() { err = t.run(x) })
+			payload, err, p := runLifeOp(x, k)
 			after := fdCount()
-			name := t.name
+			name := info.name
 			if p != "" {
 				c.Check("C10/panic", false, kase, func() string { return name + ": panic: " + p })
 				runOp(x, "x")
@@ -629,6 +641,30 @@ func (e *env) selCase(d docParams, cs []call) {
 				c.Check("C10/selection-other-terminal", err == nil, kase, func() string {
 					return fmt.Sprintf("%s: valid selection %q (pages %v of %d) failed: %v", name, callsTokens(cs), sp.pages, n, err)
 				})
+			}
+			// the pages the operation worked on, read back from the tokens of its result
+			if isPageBearing(k) && !d.mixed() && !d.hasBlank() {
+				impl := "err"
+				if err == nil {
+					got, mal := pagesOrMal(d, tokensIn(payload, d.Tag))
+					if mal {
+						impl = "malformed-token-stream"
+					} else {
+						impl = "ok " + intsStr(got)
+					}
+					if !sp.mustErr && !sp.mayErr {
+						want0 := make([]int, len(sp.pages))
+						for j, pg := range sp.pages {
+							want0[j] = pg - 1
+						}
+						c.Check("C10/selection-other-terminal-pages", !mal && eqInts(got, want0), kase, func() string {
+							return fmt.Sprintf("%s: selection %q on a %d-page document returned the lines of page indices %v (well-formed: %v), want %v",
+								name, callsTokens(cs), n, got, !mal, want0)
+						})
+					}
+				}
+				c.Op(fmt.Sprintf("c10.term %s %d%s", k, n, chainStr), impl)
+				c.Count("term-pages:" + name)
 			}
 		}
 		c.Count("sel:all-terminal-ops")
@@ -962,8 +998,11 @@ func (e *env) seqCase(d docParams, baseKind string, ops []seqOp) {
 	if openOK {
 		ok = "1"
 	}
-	c.Op(fmt.Sprintf("c10.bld %s,%s,%s %s", baseKind, ok, pc, strings.Join(modelStr, " ")),
-		strings.Join(results, " ")+" | "+strings.Join(dump, " "))
+	world := fmt.Sprintf("%s,%s,%s", baseKind, ok, pc)
+	c.Op("c10.bld "+world+" "+strings.Join(modelStr, " "), strings.Join(results, " ")+" | "+strings.Join(dump, " "))
+	// the same answers, predicted by the model from each receiver's chain of calls alone
+	c.Op("c10.lin "+world+" "+strings.Join(opsStr, " "), strings.Join(stripFd(results), " "))
+	fdAfterOps := fdCount() - baseline
 
 	// closing everything (twice) is harmless and releases every descriptor
 	for j, x := range exts {
@@ -987,6 +1026,7 @@ func (e *env) seqCase(d docParams, baseKind string, ops []seqOp) {
 			return fmt.Sprintf("after %v and closing every extractor twice: %d descriptors, %d before the sequence", opsStr, end, wantEnd)
 		})
 	}
+	c.Op("c10.end "+world+" "+strings.Join(opsStr, " "), fmt.Sprintf("%d %d", fdAfterOps, end-baseline))
 	if borrowed != nil {
 		borrowed.Close()
 	}
@@ -995,6 +1035,18 @@ func (e *env) seqCase(d docParams, baseKind string, ops []seqOp) {
 		c.Count("seq:layout:" + d.layoutClass())
 	}
 	c.Case("seq|"+d.key()+"|"+baseKind+"|"+strings.Join(opsStr, " "), nontrivial)
+}
+
+// stripFd drops the descriptor count from the result tokens of a sequence.
+func stripFd(rs []string) []string {
+	out := make([]string, len(rs))
+	for i, r := range rs {
+		if j := strings.LastIndex(r, "/"); j >= 0 {
+			r = r[:j]
+		}
+		out[i] = r
+	}
+	return out
 }
 
 func opName(k string) string {
@@ -1257,6 +1309,29 @@ func Run(c *hx.Ctx) {
 		}
 		e.seqCase(d, baseKind, genSeq(r, d.N, thorough))
 	}
+	// 3b. page-level metadata of Headings and Analyze
+	nm := c.N(120, 900)
+	for i := 0; i < nm; i++ {
+		r := c.Rng.Fork(uint64(3_000_000 + i))
+		d := genMetaDoc(r)
+		for j := 0; j < 4; j++ {
+			e.metaCase(d, withFlags(r, genSelCalls(r, d.N)))
+		}
+	}
+	// 4. operation sequences over every format and every operation of the API
+	nl := c.N(2500, 25000)
+	for i := 0; i < nl; i++ {
+		r := c.Rng.Fork(uint64(2_000_000 + i))
+		if i%100 == 0 {
+			settle()
+		}
+		f := genLifeFile(r)
+		baseKind := "f"
+		if f.Content == "pdf" && f.Ext == "pdf" && r.Chance(1, 5) {
+			baseKind = "r"
+		}
+		e.lifeCase(f, baseKind, genLifeSeq(r, f.Units, thorough))
+	}
 	end := fdCount()
 	c.Check("C10/fd-leak", end == start || len(c.Rep.FailureCount) > 0, map[string]interface{}{"mode": "whole-run"}, func() string {
 		return fmt.Sprintf("descriptors at start of run %d, at end %d", start, end)
@@ -1264,11 +1339,12 @@ func Run(c *hx.Ctx) {
 }
 
 type recorded struct {
-	Mode  string    `json:"mode"`
-	Doc   docParams `json:"doc"`
-	Calls []call    `json:"calls"`
-	Base  string    `json:"base"`
-	Ops   []seqOp   `json:"ops"`
+	Mode  string      `json:"mode"`
+	Doc   docParams   `json:"doc"`
+	Calls []call      `json:"calls"`
+	Base  string      `json:"base"`
+	Ops   []seqOp     `json:"ops"`
+	File  *fileParams `json:"file,omitempty"`
 }
 
 func parseCase(b []byte) (recorded, bool) {
@@ -1286,6 +1362,12 @@ func parseCase(b []byte) (recorded, bool) {
 			return k, false
 		}
 	}
+	if k.Mode == "life" {
+		return k, k.File != nil
+	}
+	if k.Mode == "meta" {
+		return k, true
+	}
 	return k, k.Mode == "sel" || k.Mode == "seq"
 }
 
@@ -1298,6 +1380,13 @@ func (e *env) runCase(k recorded) {
 			k.Base = "f"
 		}
 		e.seqCase(k.Doc, k.Base, k.Ops)
+	case "meta":
+		e.metaCase(k.Doc, k.Calls)
+	case "life":
+		if k.Base == "" {
+			k.Base = "f"
+		}
+		e.lifeCase(*k.File, k.Base, k.Ops)
 	}
 }
 
